@@ -544,18 +544,28 @@ impl<K: KeyT> Sut<K> for Arc<K> {
 
 // ---------------------------------------------------------------- WTinyLFUCache
 pub type Wt<K> = WTinyLFUCache<K, TV, TabKH, DynBH, DynBH, DynBH>;
+/// Seed-independent digest of the estimator state: per sketch row the histogram of the 4-bit
+/// counter values (the std sketch places counters at time-seeded positions, so positions are
+/// not comparable between two instances) plus the doorkeeper words (not seeded).
 pub fn digest(rows: &[Vec<u8>], words: &[u64]) -> String {
     let mut h: u64 = 0xcbf2_9ce4_8422_2325;
-    for r in rows {
-        for &b in r {
+    let mut mix = |x: u64| {
+        for b in x.to_le_bytes() {
             h = (h ^ b as u64).wrapping_mul(0x0100_0000_01b3);
         }
-        h = (h ^ 0xff).wrapping_mul(0x0100_0000_01b3);
+    };
+    for r in rows {
+        let mut hist = [0u64; 16];
+        for &b in r {
+            hist[(b & 0x0f) as usize] += 1;
+            hist[(b >> 4) as usize] += 1;
+        }
+        for c in hist {
+            mix(c);
+        }
     }
     for &w in words {
-        for b in w.to_le_bytes() {
-            h = (h ^ b as u64).wrapping_mul(0x0100_0000_01b3);
-        }
+        mix(w);
     }
     format!("{h:016x}")
 }
